@@ -693,33 +693,60 @@ class TokenFlow:
             return True
         return isinstance(n, (ast.Call, ast.Subscript)) and self._lookup(n, path) is not None
 
+    def _target(self, n, path):
+        """The next sub-expression to expand, in evaluation order: calls this evaluator can walk and dispatch-dict lookups innermost
+        first; a conditional expression before anything in its branches (only the branch taken is evaluated)."""
+        if isinstance(n, ast.IfExp):
+            return self._target(n.test, path) or n
+        if isinstance(n, (ast.Lambda, ast.ListComp, ast.GeneratorExp, ast.SetComp, ast.DictComp)):
+            return None
+        for child in ast.iter_child_nodes(n):
+            t = self._target(child, path)
+            if t is not None:
+                return t
+        return n if self._expandable(n, path) else None
+
     def _hoist(self, node, path, outcomes):
-        """[(path, expression)]: every call this evaluator can walk, nested anywhere in the expression, has been walked (forking
-        paths) and replaced by a temporary bound to its return value."""
-        if node is None or not any(self._expandable(n, path) for n in ast.walk(node)):
+        """[(path, expression)]: every call this evaluator can walk, every lookup in a dispatch dict and every conditional expression
+        nested anywhere in the expression has been walked (forking paths) and replaced by a temporary bound to its value / by the
+        branch taken."""
+        if node is None:
             return [(path, node)]
-        states = [path]
-        while states:
-            target = None
-            for n in ast.walk(node):
-                if self._expandable(n, states[0]):
-                    if not any(m is not n and self._expandable(m, states[0]) for m in ast.walk(n)):
-                        target = n
-                        break
+        work = [(path, node)]
+        done = []
+        while work:
+            p, n = work.pop()
+            target = self._target(n, p)
             if target is None:
-                break
+                done.append((p, n))
+                continue
+            if isinstance(target, ast.IfExp):
+                d = self.decide(target.test, p)
+                if d is None:
+                    self._paths += 1
+                    if self._paths > MAX_PATHS:
+                        raise AnalysisError('token-flow: path explosion (> {} forks)'.format(MAX_PATHS))
+                    tp, fp = p.clone(), p
+                    text = unparse(target.test)
+                    tp.conds.append((text, True, target.test))
+                    fp.conds.append((text, False, target.test))
+                    self._learn(target.test, tp, True)
+                    self._learn(target.test, fp, False)
+                    work.append((fp, _replace(n, target, target.orelse)))
+                    work.append((tp, _replace(n, target, target.body)))
+                else:
+                    work.append((p, _replace(n, target, target.body if d else target.orelse)))
+                continue
             self._tmp += 1
             tmp = '__inl{}'.format(self._tmp)
-            nxt = []
-            is_call = isinstance(target, ast.Call) and self._callee(target, states[0]) is not None
-            for s in states:
-                for s2, rv in (self._inline(target, s, outcomes) if is_call else self._expand_lookup(target, s, outcomes)):
-                    s2.env[tmp] = rv
-                    nxt.append(s2)
-            states = nxt
+            is_call = isinstance(target, ast.Call) and self._callee(target, p) is not None
             repl = ast.copy_location(ast.Name(id=tmp, ctx=ast.Load()), target)
-            node = _replace(node, target, repl)
-        return [(s, node) for s in states]
+            n2 = _replace(n, target, repl)
+            results = self._inline(target, p, outcomes) if is_call else self._expand_lookup(target, p, outcomes)
+            for s2, rv in reversed(results):
+                s2.env[tmp] = rv
+                work.append((s2, n2))
+        return done
 
     # -- statements -----------------------------------------------------------------------------------------------------------
     def run(self, body, path=None):
